@@ -12,7 +12,7 @@ from .c05 import compare_reduction_results, exec_case, row_values, rows_by_label
 RULE = (
     "Hypothesis generates tables (n <= 30) with 1-3 keys whose nulls sit at any subset of rows and in any key "
     "position (first / middle / last key forced with equal weight), one value column, an optional boolean mask and "
-    "one operation out of: reductions, transform variants, cumulative, rolling, shift/diff, EMA (row and time "
+    "a key layout (contiguous or chunk-wise factorized with per-chunk dictionaries) and one operation out of: reductions, transform variants, cumulative, rolling, shift/diff, EMA (row and time "
     "weighted), head/tail/nth, groups, group_nearby_members.  Three relations: delete the null-key rows; re-draw "
     "the values of the null-key rows; re-draw the values of all OTHER rows and observe the null-key rows' marker.  "
     "Non-trivial = at least one null-key row lies strictly between two rows of a live group.  Distinct = case hash."
@@ -31,12 +31,18 @@ VARIANTS = {"f": ("float64", "float32"), "i": ("int64", "int16", "bool"), "t": (
 @st.composite
 def case_strategy(draw, variant):
     n = draw(st.sampled_from([2, 3, 4, 5, 6, 8, 10, 12, 16, 20, 30]))
-    nk = draw(st.integers(1, 3))
+    layout = draw(st.sampled_from(["contiguous", "contiguous", "chunkwise"]))
+    nk = draw(st.integers(1, 3)) if layout == "contiguous" else 1
+    if layout == "chunkwise":
+        n = max(n, 4)
     keys = []
     null_pos = draw(st.integers(0, nk - 1))
     for i in range(nk):
-        k = draw(S.key_column(n, types=("float", "str", "dt", "cat") if i == null_pos else ("int", "float", "str", "bool", "dt", "cat"),
-                              max_labels=4, allow_null=(i == null_pos) or draw(st.booleans())))
+        if layout == "chunkwise":
+            k = draw(S.key_column(n, types=("float", "dt"), max_labels=4, shape=draw(st.sampled_from(["random", "blocks", "sorted_prefix"]))))
+        else:
+            k = draw(S.key_column(n, types=("float", "str", "dt", "cat") if i == null_pos else ("int", "float", "str", "bool", "dt", "cat"),
+                                  max_labels=4, allow_null=(i == null_pos) or draw(st.booleans())))
         if i == null_pos and all(v is not None for v in k["vals"]):
             # force at least one null in the designated key position
             idx = draw(st.lists(st.integers(0, n - 1), min_size=1, max_size=max(1, n // 3)))
@@ -72,7 +78,8 @@ def case_strategy(draw, variant):
         alt = [None if x is None else x % (2 * 10**17) for x in alt]
     if op == "nearby":
         alt = vspec["vals"]
-    return {"n": n, "keys": keys, "vals": [vspec], "mask": mask, "op": op, "kw": kw, "alt_vals": alt,
+    return {"n": n, "keys": keys, "vals": [vspec], "mask": mask, "op": op, "kw": kw, "alt_vals": alt, "layout": layout,
+            "threshold": draw(st.integers(1, n)), "key_chunks": draw(st.integers(1, 5)),
             "sort": draw(st.sampled_from([True, True, False])), "null_pos": null_pos}
 
 
@@ -82,7 +89,12 @@ def run(case):
     if op in ops.OPS:
         return ops.OPS[op].kind, ops.normalise(exec_case(case))
     keys, vals, mask, index = gbops.render(case)
-    gb = gbops.build(case, keys)
+    if case.get("layout") == "chunkwise":
+        with gbops.Shims(threshold=case["threshold"], key_chunks=case["key_chunks"]):
+            gb = gbops.build(case, keys)
+            gb.result_index  # constructed under the scaled-down threshold
+    else:
+        gb = gbops.build(case, keys)
     if op == "groups":
         g = gb.groups
         out = {}
@@ -110,6 +122,7 @@ def filtered(case, positions):
         c["mask"]["vals"] = [c["mask"]["vals"][p] for p in positions]
     if "times" in c.get("kw", {}):
         c["kw"]["times"] = [c["kw"]["times"][p] for p in positions]
+    c["layout"] = "contiguous"
     return c
 
 
@@ -146,7 +159,7 @@ def check(case, ctx):
             break
     ctx.seen("nullkey", case, bool(null_rows) and between,
              [f"op:{op}", f"nkeys:{len(case['keys'])}", f"nullpos:{case['null_pos']}of{len(case['keys'])}",
-              f"has_null_rows:{bool(null_rows)}", f"between:{between}", "mask:" + ("bool" if case["mask"] else "none")])
+              f"has_null_rows:{bool(null_rows)}", f"between:{between}", f"layout:{case.get('layout')}", "mask:" + ("bool" if case["mask"] else "none")])
     kind, res = run(case)
     # ---- relation 1: delete the null-key rows
     if keep:
